@@ -24,7 +24,9 @@ Definition wf_case (c : case) : bool :=
       | OpRescan rs_ _ => forallb (fun r => is_u32 (fst r) && is_u32 (snd r) && (fst r <=? snd r)) rs_
       | OpTrim h => is_u32 h
       | OpPrune h _ => is_u32 h
+      | OpRewind t _ => is_u32 t
       end
   | QLoop b t _ _ final _ _ => is_u32 b && is_u32 t && forallb sr_valid final
   | QChain q _ => forallb sr_valid q
+  | QRescan t tip _ final _ => is_u32 t && is_u32 tip && forallb sr_valid final
   end.
